@@ -205,7 +205,11 @@ func runCase(t *rapid.T, c caseT) {
 						outs = append(outs, msg)
 					}
 					for i := 0; i < ms.Outs; i++ {
-						o := message.NewMessage(fmt.Sprintf("%s-o%d", tag, i), []byte(hs.Name+"/"+tag))
+						uuid := fmt.Sprintf("%s-o%d", tag, i)
+						if (i+len(tag))%3 == 0 {
+							uuid = "" // UUIDs are optional: outputs without one reach the publisher without one
+						}
+						o := message.NewMessage(uuid, []byte(hs.Name+"/"+tag))
 						o.Metadata.Set("i", fmt.Sprint(i))
 						if i%2 == 1 || len(tag)%2 == 1 {
 							// outputs may carry a context of their own (tracing spans, deadlines): the router only ADDS its values
